@@ -221,7 +221,8 @@ exprassign(struct expr *e, struct type *t)
 			error(&tok.loc, "assignment to %s type must be from compatible type", tokstr[t->kind]);
 		break;
 	default:
-		assert(t->prop & PROPARITH);
+		if (!(t->prop & PROPARITH))
+			error(&tok.loc, "assignment to object with void, array, or function type");
 		if (!(et->prop & PROPARITH))
 			error(&tok.loc, "assignment to arithmetic type must be from arithmetic type");
 		break;
@@ -1314,7 +1315,7 @@ mkassignexpr(struct expr *l, struct expr *r)
 
 	e = mkexpr(EXPRASSIGN, l->type, NULL);
 	e->u.assign.l = l;
-	e->u.assign.r = exprconvert(r, l->type);
+	e->u.assign.r = exprassign(r, l->type);
 	return e;
 }
 
